@@ -90,6 +90,62 @@ func parseOK(c *Ctx, cs []Cond) (*ssa.Call, bool) {
 
 // pathsTo enumerates acyclic paths from the entry of fn to block target, calling visit with the branch conditions taken.
 func pathsTo(fn *ssa.Function, target *ssa.BasicBlock, visit func(cs []Cond)) int {
+	return pathsToRaw(fn, target, func(cs []Cond) { expandPredicateCalls(cs, 0, visit) })
+}
+
+// expandPredicateCalls: a path condition that is the verdict of a private boolean helper — `if !accepts(s, m) {…}` —
+// is replaced by the conditions of the helper's own paths to the returns that give that verdict (one expanded path
+// per helper path), with the helper's parameters bound to the call's arguments. Extracting a decision into a
+// predicate function therefore leaves the path rules looking at the same conditions.
+func expandPredicateCalls(cs []Cond, depth int, visit func(cs []Cond)) {
+	if depth < 3 && lastCtx != nil {
+		for i, cd := range cs {
+			nc := normCond(cd.V, cd.Pol)
+			call, ok := nc.V.(*ssa.Call)
+			if !ok {
+				continue
+			}
+			g := call.Call.StaticCallee()
+			if g == nil || len(g.Blocks) == 0 || !lastCtx.inModule(g) || g.Object() == nil || g.Object().Exported() || lastCtx.EntShape().isGenerated(g) {
+				continue
+			}
+			res := g.Signature.Results()
+			if res.Len() != 1 {
+				continue
+			}
+			if bt, isB := res.At(0).Type().Underlying().(*types.Basic); !isB || bt.Kind() != types.Bool {
+				continue
+			}
+			rest := append(append([]Cond{}, cs[:i]...), cs[i+1:]...)
+			bind := map[*ssa.Parameter]ssa.Value{}
+			for k, p := range g.Params {
+				if k < len(call.Call.Args) {
+					bind[p] = call.Call.Args[k]
+				}
+			}
+			for _, ret := range returnsOf(g) {
+				rv := retResult(ret, 0)
+				if k, isK := rv.(*ssa.Const); isK && k.Value != nil && k.Value.Kind() == constant.Bool {
+					if constant.BoolVal(k.Value) != nc.Pol {
+						continue
+					}
+					rv = nil
+				}
+				pathsToRaw(g, ret.Block(), func(inner []Cond) {
+					all := append(append([]Cond{}, rest...), inner...)
+					if rv != nil {
+						all = append(all, Cond{rv, nc.Pol})
+					}
+					withBindMap(bind, func() { expandPredicateCalls(all, depth+1, visit) })
+				})
+			}
+			return
+		}
+	}
+	visit(cs)
+}
+
+func pathsToRaw(fn *ssa.Function, target *ssa.BasicBlock, visit func(cs []Cond)) int {
 	n := 0
 	onPath := map[*ssa.BasicBlock]bool{}
 	var walk func(b *ssa.BasicBlock, cs []Cond)
@@ -211,17 +267,20 @@ func ruleC07_1(c *Ctx, r *Rep) {
 	okSkip := false
 	for _, ret := range returnsOf(fn) {
 		if isNilConst(retResult(ret, 0)) && isNilConst(retResult(ret, 1)) {
-			for _, cd := range edgeConds(ret.Block()) {
-				if bo, ok := cd.V.(*ssa.BinOp); ok && bo.Op == token.NEQ && cd.Pol && isNilConst(bo.Y) {
-					if ex, ok := bo.X.(*ssa.Extract); ok {
-						if call, ok := ex.Tuple.(*ssa.Call); ok {
-							if _, isV := validatingParse(c, call); isV {
-								okSkip = true
+			pathsTo(fn, ret.Block(), func(cs []Cond) {
+				for _, cd := range cs {
+					nc := normCond(cd.V, cd.Pol)
+					if bo, ok := nc.V.(*ssa.BinOp); ok && (bo.Op == token.NEQ && nc.Pol || bo.Op == token.EQL && !nc.Pol) && isNilConst(bo.Y) {
+						if ex, ok := bo.X.(*ssa.Extract); ok {
+							if call, ok := ex.Tuple.(*ssa.Call); ok {
+								if _, isV := validatingParse(c, call); isV {
+									okSkip = true
+								}
 							}
 						}
 					}
 				}
-			}
+			})
 		}
 	}
 	r.Check("C08.5", "C08.5:broken-filter-skips@"+fnDeliver, fn.Pos(), okSkip, "", "a stored filter that does not parse makes the publish fail instead of skipping that subscription")
